@@ -92,6 +92,30 @@ def run(ctx):
                 o6.violated(cj, cj.node, f"{ci.name}.create_jdd never normalises: the result does not sum to 1")
             elif cj.body.index(calls[-1]) > cj.body.index(lp) and cfg.postdominates(calls[-1], lp):
                 o6.holds(cj, calls[-1], "normalise_jdd() post-dominates the loop")
+            elif cj.body.index(calls[-1]) > cj.body.index(lp):
+                # exits between the loop and the call: leaving with an EMPTY table skips nothing (normalising {} does nothing);
+                # a tolerance test leaves a table that is only nearly normalised
+                between = cj.body[cj.body.index(lp) + 1: cj.body.index(calls[-1])]
+                verdict = "holds"
+                why = None
+                for b_ in between:
+                    if isinstance(b_, ast.If) and not b_.orelse and len(b_.body) >= 1 and isinstance(b_.body[-1], ast.Return) and all(
+                            isinstance(x_, (ast.Return, ast.Pass)) or (isinstance(x_, ast.Expr) and isinstance(x_.value, ast.Constant)) for x_ in b_.body):
+                        tt = txt(b_.test)
+                        if tt in ("not self._jdd", "len(self._jdd) == 0", "self._jdd == {}", "not len(self._jdd)"):
+                            continue
+                        tol = any((isinstance(x_, ast.Call) and txt(x_.func).split(".")[-1] in ("isclose", "allclose", "round", "abs", "fabs")) for x_ in ast.walk(b_.test))
+                        verdict, why = ("violated" if tol else "undecided"), tt
+                        break
+                    elif any(isinstance(x_, (ast.Return, ast.Raise)) for x_ in ast.walk(b_)):
+                        verdict, why = "undecided", txt(b_)[:60]
+                        break
+                if verdict == "holds":
+                    o6.holds(cj, calls[-1], "normalise_jdd() runs after the loop on every path that has something to normalise (the only earlier exit is for an empty table)")
+                elif verdict == "violated":
+                    o6.violated(cj, calls[-1], f"normalise_jdd() is skipped when `{why}`: a table that is only nearly normalised is exposed as it is")
+                else:
+                    o6.undecided(f"normalise_jdd() is skipped when `{why}`", cj, calls[-1])
             else:
                 o6.violated(cj, calls[-1], "normalise_jdd() does not run after the loop on every path")
 
